@@ -1,12 +1,28 @@
 """C16: density estimation solves the right linear system.
-Correspondence  Model/Gram.v (extracted)  <->  GridOperation.DensityEstimation, plus the property's own predicate
-(exact-rational specification in _de.py: Gram matrix by piecewise Simpson integration, sample-mean right-hand side,
-exact solve, normalisation) evaluated on the implementation's outputs."""
+Correspondence  Model/Gram.v + Model/GramSolve.v (extracted)  <->  GridOperation.DensityEstimation, plus the property's own
+predicate (exact-rational specification in _de.py: Gram matrix by piecewise Simpson integration, sample-mean right-hand side,
+exact solve, normalisation) evaluated on the implementation's outputs.
+
+Case kinds
+  uniform / nonuniform            direct calls of build_R_matrix(_dimension_wise), calculate_B(_dimension_wise),
+                                  solve_density_estimation(_dimension_wise), the hat variants and the interpolation of one
+                                  component grid; every size incl. grids with >= 200 points (complete pipeline beyond the threshold)
+  uniform-large / nonuniform-large  grids beyond the threshold: right-hand side, hats and interpolation only (no solve)
+  combi                           StandardCombi.perform_operation + combi(points)
+  adaptive                        SpatiallyAdaptiveSingleDimensions2 with a GlobalTrapezoidalGrid driven for a few refinement steps; every
+                                  component-grid solve of the run (real refinement trees, ONE operation object) is logged and checked
+  histories                       2-4 of the above on ONE operation object / several objects in ONE process (regularisation sweeps,
+                                  changing level vectors, different trees of equal size, option changes, repeated calls); every step is
+                                  compared with the model (a pure function of the request) and with the oracle; the violation's case
+                                  holds the history up to the failing step (key 'history') and replays it."""
 import itertools
+import os
+import time
+import traceback
 from fractions import Fraction as F
 
 from .. import sx
-from ..impl import run_impl
+from ..impl import run_impl, REPO
 from ..model import run_model
 from . import _de
 from ._de import fr, qvec, qmat, vec_close, mat_close
@@ -16,95 +32,354 @@ ASSUMPTIONS = [
     'relative tolerance 1e-11 (matrix entries, right-hand sides, hat values) resp. 1e-9 (outputs of the LAPACK solve); for the '
     'non-uniform analytic entries the tolerance is enlarged by 64*eps*max_cells 6(x/h)^3 because the coded off-diagonal formula '
     'subtracts terms of size (x/h)^3 h (cancellation-aware bound, DESIGN section 3)',
-    'the LAPACK solve is replaced by a certificate (exact rational solution computed by the harness) which the verified '
-    'checker check_solution validates against the model matrix and right-hand side',
+    'the LAPACK solve is compared (1e-9) with (a) the exact rational solution computed by the harness, which the verified checker '
+    'check_solution validates against the model matrix and right-hand side (up to 64 grid points and a cost bound on the size of the '
+    'rationals; beyond that the exact residual is computed in Python, because the extracted model computes with inductive integers), and '
+    '(b) for grids of up to 21 points the solution computed by the model itself (Model/GramSolve.v, exact elimination guarded by the same '
+    'checker; must equal (a) exactly; proved to be the unique solution and never to fail: C16_pipeline_total)',
     'np.ceil(x - p + 1e-30) in hat_function_non_symmetric_vectorized is modelled as the step function [x >= p]',
     'grids without boundary points, basis not modified (the configuration DensityEstimation supports); data in the unit cube',
-    'd-dimensional positive definiteness is tested per case by an exact LDL^T factorisation of the implementation matrix (not proved)',
+    'positive definiteness of the d-dimensional matrix is PROVED on the model for every grid (C16_gram_grid_positive_definite, '
+    'C16_gram_uniform_positive_definite); on the implementation matrix it is additionally tested per case (exact LDL^T up to 64 points, '
+    'floating Cholesky of the symmetric matrix beyond)',
+    'every case and every history runs in a freshly forked process that has only imported the implementation: class-level or module-level '
+    'state cannot leak between cases, a violation replays from its own case',
+    'histories: option changes on a living object are made by assigning the public attributes lambd / masslumping / classes',
+    'adaptive runs are driven by a scripted error calculator (errors depend only on the geometry of the refinement object); '
+    'the logged component-grid solves are compared one by one, the densities at the stops with the combination of the model interpolants '
+    'of the (exact rational images of the) implementation surpluses',
 ]
 
 REL_M = 1e-11     # matrix entries / rhs / hats
 REL_S = 1e-9      # solver outputs
+LAMS = [0.0, 0.0, 0.0, 0.125, 0.25, 0.3125, 1.0, 0.5, 4.0, 2.0 ** -20, 100.0]      # dyadic: exact arithmetic stays cheap
+LAMS_ODD = [0.01, 0.3]      # binary64 values with 50-bit numerators: only on grids of up to 12 points (the extracted model computes
+                            # with inductive integers; an exact certificate for 45 points takes minutes)
+
+
+def _lam(rng, N):
+    if N <= 12 and rng.random() < 0.3:
+        return rng.choice(LAMS_ODD)
+    return rng.choice(LAMS)
+MS = [1, 2, 3, 5, 8, 12, 20, 30, 70]
+CERT_MAX = 64     # the certificate of the solve is checked by the extracted checker up to this number of grid points (beyond: exact
+                  # residual in Python; the extracted model computes with inductive integers)
+CERT_COST = 3e8   # ... and up to this cost estimate N * sum(bits(x_i)^2) of the exact solution x (about 3 s in the extracted checker)
+PIPE_MAX = 21     # the model's own solve (Model/GramSolve.v) is evaluated up to this number of grid points
+EXCLUDED = {
+    'debug=True on the uniform path': 'solve_density_estimation raises UFuncTypeError at GridOperation.py:1619 ("Alphas: " + ndarray) '
+                                      '- logging code, outside the property; debug=True is exercised on the dimension-wise path',
+    'data outside the unit cube': 'initialize() rescales such data (MinMaxScaler); the property speaks about data in the unit cube',
+    'grids with boundary points / modified basis': 'evaluate_levelvec asserts not grid.boundary; hat_function_non_symmetric switches formulas',
+    'reuse_old_values=True': 'property C17',
+    'unsorted or repeated stripe coordinates': 'never produced by the grid classes; calculate_R_value_analytically divides by the distances',
+    'negative lambda': 'the system matrix need not be positive definite then; not covered by the property',
+}
 
 
 # ----------------------------------------------------------------------------------------------- generators
-def gen_uniform(rng, quick):
-    dim = rng.choice([1, 1, 2, 2, 2, 3])
+def _labels(rng, M):
+    r = rng.random()
+    if r < 0.58:
+        return None
+    if r < 0.68:
+        s = rng.choice([-1, 1])
+        return [s] * M                      # only one class present
+    return [rng.choice([-1, 1]) for _ in range(M)]
+
+
+def _uniform_stripes_f(lv):
+    return [[i / 2 ** l for i in range(2 ** l + 1)] for l in lv]
+
+
+def _N(st):
+    N = 1
+    for s in st:
+        N *= len(s) - 2
+    return N
+
+
+def _options(rng, c, uniform):
+    """constructor options besides lambda / mass lumping / classes, and call-pattern options"""
+    if rng.random() < 0.1:
+        c['pre_scaled'] = True
+    if rng.random() < 0.1:
+        c['data_form'] = 'tuple'
+    if uniform and rng.random() < 0.12:
+        c['explicit_grid'] = True
+    if not uniform and not c.get('numeric') and rng.random() < 0.15:
+        c['debug'] = True
+    if rng.random() < 0.1:
+        c['repeat'] = True
+    return c
+
+
+def mk_uniform(rng, lv, data=None, M=None, lam=None, ml=None, classes='?', npts=6, options=True):
+    dim = len(lv)
+    st = _uniform_stripes_f(lv)
+    if data is None:
+        data = _de.gen_data(rng, dim, M or rng.choice(MS), st)
+    c = dict(kind='uniform', dim=dim, lv=list(lv), lam=_lam(rng, _N(st)) if lam is None else lam,
+             ml=(rng.random() < 0.25) if ml is None else ml, data=data,
+             classes=_labels(rng, len(data)) if classes == '?' else classes)
+    c['points'] = [list(x) for x in data[:npts]] + _de.eval_points(rng, dim, st, npts, ulp=0.05)
+    return _options(rng, c, True) if options else c
+
+
+def mk_nonuniform(rng, sl, data=None, M=None, lam=None, ml=None, classes='?', numeric=False, npts=6, options=True):
+    st = [s for s, _ in sl]
+    dim = len(st)
+    if data is None:
+        data = _de.gen_data(rng, dim, M or rng.choice(MS), st)
+    c = dict(kind='nonuniform', dim=dim, stripes=st, levels=[l for _, l in sl],
+             lam=_lam(rng, _N(st)) if lam is None else lam, ml=((rng.random() < 0.25) if ml is None else ml) and not numeric,
+             numeric=numeric, data=data, classes=_labels(rng, len(data)) if classes == '?' else classes)
+    c['points'] = [list(x) for x in data[:npts]] + _de.eval_points(rng, dim, st, npts, ulp=0.06)
+    return _options(rng, c, False) if options else c
+
+
+def gen_levelvec(rng, dim, nmax, lmax=4):
     while True:
-        lv = [rng.choice([1, 1, 2, 2, 3, 4]) for _ in range(dim)]
+        lv = [rng.choice([1, 1, 2, 2, 3, 4][:lmax + 2]) for _ in range(dim)]
         N = 1
         for l in lv:
             N *= 2 ** l - 1
-        if N <= (45 if quick else 49):
-            break
-    st = [[i / 2 ** l for i in range(2 ** l + 1)] for l in lv]
-    M = rng.choice([1, 2, 3, 5, 8, 12, 20, 30])
-    lab = rng.random() < 0.4
-    c = dict(kind='uniform', dim=dim, lv=lv, lam=rng.choice([0.0, 0.0, 0.125, 0.25, 0.01, 1.0, 0.5]),
-             ml=rng.random() < 0.25, data=_de.gen_data(rng, dim, M, st),
-             classes=[rng.choice([-1, 1]) for _ in range(M)] if lab else None)
-    c['points'] = c['data'][:6] + _de.eval_points(rng, dim, st, 6)
-    return c
+        if N <= nmax:
+            return lv
+
+
+def gen_uniform(rng, quick):
+    dim = rng.choice([1, 1, 2, 2, 2, 3, 3, 4, 5])
+    return mk_uniform(rng, gen_levelvec(rng, dim, 45 if quick else 49))
+
+
+def gen_stripes(rng, dim, nmax, numeric=False, maxlevel=None, nmin=1):
+    while True:
+        sl = [_de.gen_stripe(rng, maxlevel or rng.choice([2, 3, 3, 4]), 1, 3 if numeric else 7) for _ in range(dim)]
+        if nmin <= _N([s for s, _ in sl]) <= nmax:
+            return sl
 
 
 def gen_nonuniform(rng, quick, numeric=False):
-    dim = rng.choice([1, 2, 2, 3]) if not numeric else rng.choice([1, 2])
-    while True:
-        sl = [_de.gen_stripe(rng, rng.choice([2, 3, 3, 4]), 1, 3 if numeric else 7) for _ in range(dim)]
-        N = 1
-        for s, _ in sl:
-            N *= len(s) - 2
-        if N <= (6 if numeric else (40 if quick else 48)):
-            break
-    st = [s for s, _ in sl]
-    M = rng.choice([1, 2, 3, 5, 8, 12, 20, 30])
-    lab = rng.random() < 0.4
-    c = dict(kind='nonuniform', dim=dim, stripes=st, levels=[l for _, l in sl],
-             lam=rng.choice([0.0, 0.0, 0.125, 0.25, 0.01, 1.0, 0.5]), ml=(rng.random() < 0.25) and not numeric,
-             numeric=numeric, data=_de.gen_data(rng, dim, M, st),
-             classes=[rng.choice([-1, 1]) for _ in range(M)] if lab else None)
-    c['points'] = c['data'][:6] + _de.eval_points(rng, dim, st, 6, ulp=0.06)
+    dim = rng.choice([1, 2, 2, 3, 3, 4]) if not numeric else rng.choice([1, 1, 2])
+    if numeric:         # scipy nquad per matrix entry: seconds per entry in two dimensions
+        return mk_nonuniform(rng, gen_stripes(rng, dim, 4 if dim == 1 else 2, True), numeric=True, M=rng.choice([1, 2, 3, 5, 8]))
+    return mk_nonuniform(rng, gen_stripes(rng, dim, 40 if quick else 48))
+
+
+BIGM = [(M, u, lab) for M in (1030, 4100, 2050) for u in (True, False) for lab in (False, True)] + \
+       [(130, True, False), (260, False, True), (520, True, True), (520, False, False)]
+
+
+def gen_bigM(rng, k=None):
+    """many samples on a small grid: loops / blocks over the data set (M beyond 64, 128, 1000, 1024, 2048, 4096); both paths, with
+    and without labels, see sample counts on either side of these sizes in every run (k = position in the fixed plan)"""
+    if k is not None:
+        M, uniform, lab = BIGM[k % len(BIGM)]
+    else:
+        M, uniform, lab = rng.choice([130, 260, 520, 1030, 2050, 4100]), rng.random() < 0.5, rng.random() < 0.5
+    dim = rng.choice([1, 2, 2, 3])
+    classes = [rng.choice([-1, 1]) for _ in range(M)] if lab else None
+    if uniform:
+        c = mk_uniform(rng, gen_levelvec(rng, dim, 9, 2), M=M, npts=3, classes=classes)
+    else:
+        c = mk_nonuniform(rng, gen_stripes(rng, dim, 9), M=M, npts=3, classes=classes)
+    c.pop('debug', None)
     return c
 
 
-def gen_large(rng, uniform):
+def gen_xl(rng, uniform, dim=None):
+    """complete pipeline (matrix, solve, normalisation) on grids with >= 200 points"""
+    if uniform:
+        lv = rng.choice([[8], [4, 4], [5, 3], [3, 5]])
+        c = mk_uniform(rng, lv, M=rng.choice([5, 12, 30]), lam=rng.choice([0.0, 0.125, 0.0625]), ml=False, npts=4, options=False)
+    else:
+        dim = dim or rng.choice([1, 2, 2])
+        while True:
+            if dim == 1:
+                sl = [_de.gen_stripe(rng, 9, 200, 240)]
+            else:
+                sl = [_de.gen_stripe(rng, 6, 12, 18) for _ in range(dim)]
+            if 200 <= _N([s for s, _ in sl]) <= 260:
+                break
+        c = mk_nonuniform(rng, sl, M=rng.choice([5, 12, 30]), lam=rng.choice([0.0, 0.125, 0.0625]), ml=False, npts=4, options=False)
+        if rng.random() < 0.3:
+            c['debug'] = True
+    c['xl'] = True
+    return c
+
+
+def gen_large(rng, uniform, lab=None):
     """grids on the far side of the 200-point threshold: right-hand side and interpolation only (no solve)"""
     if uniform:
-        lv = rng.choice([[8], [4, 4], [5, 3], [3, 5], [2, 2, 4], [3, 3, 3], [6, 2]])
+        lv = rng.choice([[8], [4, 4], [5, 3], [3, 5], [2, 2, 4], [3, 3, 3], [6, 2], [10], [11], [6, 5]])      # up to 2047 points
         dim = len(lv)
-        st = [[i / 2 ** l for i in range(2 ** l + 1)] for l in lv]
+        st = _uniform_stripes_f(lv)
         c = dict(kind='uniform-large', dim=dim, lv=lv)
     else:
         dim = rng.choice([2, 2, 3])
+        huge = rng.random() < 0.25                     # beyond 1024 points
         while True:
-            sl = [_de.gen_stripe(rng, 5, 4, 24) for _ in range(dim)]
-            N = 1
-            for s, _ in sl:
-                N *= len(s) - 2
-            if 200 <= N <= 420:
+            sl = [_de.gen_stripe(rng, 6, 28, 36) for _ in range(2)] if huge else [_de.gen_stripe(rng, 5, 4, 24) for _ in range(dim)]
+            if 200 <= _N([s for s, _ in sl]) <= (1300 if huge else 420):
                 break
+        dim = len(sl)
         st = [s for s, _ in sl]
         c = dict(kind='nonuniform-large', dim=dim, stripes=st, levels=[l for _, l in sl])
-    M = rng.choice([3, 8, 15])
-    lab = rng.random() < 0.4
+    M = rng.choice([3, 8, 15, 70])
     c.update(lam=0.0, ml=False, data=_de.gen_data(rng, dim, M, st),
-             classes=[rng.choice([-1, 1]) for _ in range(M)] if lab else None)
+             classes=_labels(rng, M) if lab is None else ([rng.choice([-1, 1]) for _ in range(M)] if lab else None))
     c['points'] = c['data'][:4] + _de.eval_points(rng, dim, st, 5)
     c['surplus_seed'] = rng.randrange(1 << 30)
     return c
 
 
-def gen_combi(rng):
-    dim = rng.choice([1, 2, 2, 3])
-    lmin = 1
-    lmax = rng.choice([2, 3]) if dim < 3 else 2
+def gen_combi(rng, large=False):
+    if large:       # component grids on both sides of the threshold in one scheme (mass lumping: no O(N^2) matrix loop)
+        dim, lmin, lmax, ml = 2, 1, rng.choice([6, 7]), True
+    else:
+        dim = rng.choice([1, 2, 2, 3])
+        lmin = 1
+        lmax = rng.choice([2, 3]) if dim < 3 else 2
+        ml = rng.random() < 0.2
     M = rng.choice([2, 5, 10, 20])
-    lab = rng.random() < 0.3
     st = [[i / 8 for i in range(9)] for _ in range(dim)]
-    c = dict(kind='combi', dim=dim, lmin=lmin, lmax=lmax, lam=rng.choice([0.0, 0.125, 0.01]), ml=rng.random() < 0.2,
-             data=_de.gen_data(rng, dim, M, st), classes=[rng.choice([-1, 1]) for _ in range(M)] if lab else None)
+    c = dict(kind='combi', dim=dim, lmin=lmin, lmax=lmax, lam=rng.choice([0.0, 0.125, 0.01, 0.3125]), ml=ml,
+             data=_de.gen_data(rng, dim, M, st), classes=_labels(rng, M))
     c['points'] = c['data'][:4] + _de.eval_points(rng, dim, st, 6)
     return c
+
+
+def gen_adaptive(rng):
+    dim = rng.choice([1, 2, 2, 3])
+    if dim == 1:
+        lmin, lmax, nsteps = rng.choice([1, 2]), rng.choice([3, 4]), rng.choice([2, 3, 4])
+    elif dim == 2:
+        lmin, lmax, nsteps = 1, rng.choice([2, 3]), rng.choice([2, 3])
+    else:
+        lmin, lmax, nsteps = 1, 2, rng.choice([1, 2])
+    M = rng.choice([8, 20, 40])
+    st = [[i / 16 for i in range(17)] for _ in range(dim)]
+    data = _de.gen_data(rng, dim, M, st, k=5)
+    c = dict(kind='adaptive', dim=dim, lmin=lmin, lmax=lmax, nsteps=nsteps, lam=rng.choice([0.0, 0.0625, 0.125, 0.3125]),
+             ml=rng.random() < 0.2, data=data, classes=_labels(rng, M), margin=rng.choice([0.25, 0.5, 0.9]),
+             rebalancing=rng.random() < 0.5, est_seed=rng.randrange(1 << 30), debug=rng.random() < 0.15)
+    c['points'] = [list(x) for x in data[:3]] + _de.eval_points(rng, dim, st, 5)
+    return c
+
+
+def _same_size_stripe(rng, sl):
+    """another tree with the same number of points (and the same maximum level where possible) in every dimension"""
+    out = []
+    for s, lv in sl:
+        L = max(max(lv), 1)
+        k = len(s) - 2
+        for _ in range(20):
+            t, tl = _de.gen_stripe(rng, L, k, k)
+            if len(t) == len(s) and t != s:
+                break
+        out.append((t, tl) if len(t) == len(s) else (s, lv))
+    return out
+
+
+def gen_history(rng, family=None):
+    """short histories in ONE process; steps with equal 'obj' share one operation object"""
+    family = family or rng.choice(['lam-sweep', 'lam-sweep', 'one-op-levels', 'one-op-levels', 'one-op-trees', 'one-op-trees',
+                                   'two-ops', 'combi-rerun', 'mixed-paths', 'threshold-crossing'])
+    dim = rng.choice([1, 2, 2, 3])
+    steps = []
+    if family == 'lam-sweep':
+        # fresh objects, SAME grid, different lambda / lumping / labels / data: anything cached at class or module level shows
+        uniform = rng.random() < 0.6
+        lv = gen_levelvec(rng, dim, 16, 2)
+        sl = gen_stripes(rng, dim, 16)
+        st = _uniform_stripes_f(lv) if uniform else [s for s, _ in sl]
+        data = _de.gen_data(rng, dim, rng.choice([3, 8, 20]), st)
+        lams = rng.sample([0.0, 0.125, 0.25, 0.5, 1.0, 0.01], 3)
+        for k in range(rng.choice([2, 3, 3])):
+            if rng.random() < 0.3:
+                data = _de.gen_data(rng, dim, rng.choice([3, 8, 20]), st)
+            kw = dict(data=data, lam=lams[k], ml=rng.random() < 0.15, options=False, npts=3)
+            s = mk_uniform(rng, lv, **kw) if uniform else mk_nonuniform(rng, sl, **kw)
+            s['obj'] = k
+            steps.append(s)
+    elif family in ('one-op-levels', 'two-ops'):
+        nobj = 1 if family == 'one-op-levels' else 2
+        base = [gen_levelvec(rng, dim, 16, 2) for _ in range(3)]
+        if dim >= 2 and rng.random() < 0.6:
+            base[1] = list(reversed(base[0]))       # same number of points, other shape
+        datas = [_de.gen_data(rng, dim, rng.choice([3, 8, 20]), _uniform_stripes_f([3] * dim)) for _ in range(nobj)]
+        lam0 = [rng.choice(LAMS) for _ in range(nobj)]
+        order = [base[0], base[1], base[0], base[2]][:rng.choice([3, 4])]
+        for k, lv in enumerate(order):
+            for o in range(nobj):
+                lam = lam0[o] if rng.random() < 0.6 else rng.choice(LAMS)        # attribute change on the living object
+                s = mk_uniform(rng, lv, data=datas[o], lam=lam, ml=rng.random() < 0.2, options=False, npts=3)
+                s['obj'] = o
+                if rng.random() < 0.15:
+                    s['repeat'] = True
+                steps.append(s)
+    elif family == 'one-op-trees':
+        sl = gen_stripes(rng, dim, 16, maxlevel=rng.choice([3, 4]))
+        data = _de.gen_data(rng, dim, rng.choice([3, 8, 20]), [s for s, _ in sl])
+        lam0 = rng.choice(LAMS)
+        cur = sl
+        for k in range(rng.choice([3, 4])):
+            if k > 0:
+                cur = _same_size_stripe(rng, cur) if rng.random() < 0.6 else gen_stripes(rng, dim, 16)
+            lam = lam0 if rng.random() < 0.6 else rng.choice(LAMS)
+            s = mk_nonuniform(rng, cur, data=data, lam=lam, ml=rng.random() < 0.2, options=False, npts=3)
+            s['obj'] = 0
+            if rng.random() < 0.15:
+                s['repeat'] = True
+            steps.append(s)
+    elif family == 'threshold-crossing':
+        # one object (mass lumping on the big grid: no O(N^2) matrix loop): small grid -> grid with >= 200 points -> small grid
+        dim = rng.choice([1, 2])
+        uniform = rng.random() < 0.5
+        if uniform:
+            grids = [gen_levelvec(rng, dim, 16, 2), [8] if dim == 1 else rng.choice([[4, 4], [5, 3], [3, 5]]), gen_levelvec(rng, dim, 16, 2)]
+            data = _de.gen_data(rng, dim, rng.choice([3, 8, 20]), _uniform_stripes_f(grids[1]))
+        else:
+            while True:
+                big = [_de.gen_stripe(rng, 9, 200, 230)] if dim == 1 else [_de.gen_stripe(rng, 6, 13, 18) for _ in range(dim)]
+                if 200 <= _N([s for s, _ in big]) <= 300:
+                    break
+            grids = [gen_stripes(rng, dim, 16), big, gen_stripes(rng, dim, 16)]
+            data = _de.gen_data(rng, dim, rng.choice([3, 8, 20]), [s for s, _ in big])
+        for k, g in enumerate(grids):
+            kw = dict(data=data, lam=rng.choice([0.0, 0.125, 0.5]), ml=True if k == 1 else rng.random() < 0.3, options=False, npts=3)
+            s = mk_uniform(rng, g, **kw) if uniform else mk_nonuniform(rng, g, **kw)
+            s['obj'] = 0
+            steps.append(s)
+    elif family == 'combi-rerun':
+        dim = rng.choice([1, 2, 2])
+        st = [[i / 8 for i in range(9)] for _ in range(dim)]
+        data = _de.gen_data(rng, dim, rng.choice([5, 10, 20]), st)
+        classes = _labels(rng, len(data))
+        runs = rng.choice([[(1, 2), (1, 3)], [(1, 3), (2, 3)], [(1, 2), (1, 2)], [(2, 3), (1, 2), (1, 3)]])
+        for k, (lmin, lmax) in enumerate(runs):
+            s = dict(kind='combi', dim=dim, lmin=lmin, lmax=lmax, lam=rng.choice([0.0, 0.125, 0.01, 0.3125]), ml=rng.random() < 0.15,
+                     data=data, classes=classes, obj=0 if rng.random() < 0.7 else k)
+            s['points'] = [list(x) for x in data[:3]] + _de.eval_points(rng, dim, st, 4)
+            steps.append(s)
+            if rng.random() < 0.4:
+                u = mk_uniform(rng, gen_levelvec(rng, dim, 16, 3), data=data, lam=s['lam'], ml=s['ml'], classes=classes, options=False, npts=3)
+                u['obj'] = s['obj']
+                steps.append(u)
+    else:           # mixed-paths: uniform and dimension-wise objects interleaved in one process, same data
+        lv = gen_levelvec(rng, dim, 16, 2)
+        data = _de.gen_data(rng, dim, rng.choice([3, 8, 20]), _uniform_stripes_f(lv))
+        for k in range(rng.choice([3, 4])):
+            lam = rng.choice(LAMS)
+            if k % 2 == 0:
+                s = mk_uniform(rng, lv if k == 0 else gen_levelvec(rng, dim, 16, 2), data=data, lam=lam, options=False, npts=3)
+            else:
+                s = mk_nonuniform(rng, [(st, [0] + [1] * (len(st) - 2) + [0]) for st in _uniform_stripes_f(lv)] if rng.random() < 0.5
+                                  else gen_stripes(rng, dim, 16), data=data, lam=lam, options=False, npts=3)
+            s['obj'] = k % 2
+            steps.append(s)
+    return dict(family=family, steps=steps)
 
 
 CORPUS = [
@@ -125,6 +400,26 @@ CORPUS = [
          classes=[1, -1, 1, 1, -1, -1], points=[[0.25, 0.5], [0.5, 0.75], [0.625, 1.0], [0.3, 0.6]]),
 ]
 
+CORPUS_HISTORIES = [
+    # regularisation sweep over fresh objects on one regular grid (class-level cache of the system matrix keyed without lambda)
+    dict(family='lam-sweep', steps=[
+        dict(kind='uniform', dim=2, lv=[2, 1], lam=0.0, ml=False, data=[[0.25, 0.5], [0.5, 0.5], [0.125, 0.875]], classes=None,
+             points=[[0.25, 0.5]], obj=0),
+        dict(kind='uniform', dim=2, lv=[2, 1], lam=0.25, ml=False, data=[[0.25, 0.5], [0.5, 0.5], [0.125, 0.875]], classes=None,
+             points=[[0.25, 0.5]], obj=1)]),
+    # one object: lambda changed on the living object, level vector revisited
+    dict(family='one-op-levels', steps=[
+        dict(kind='uniform', dim=1, lv=[2], lam=0.0, ml=False, data=[[0.25], [0.5], [0.875]], classes=None, points=[[0.25]], obj=0),
+        dict(kind='uniform', dim=1, lv=[3], lam=0.5, ml=False, data=[[0.25], [0.5], [0.875]], classes=None, points=[[0.25]], obj=0),
+        dict(kind='uniform', dim=1, lv=[2], lam=0.5, ml=True, data=[[0.25], [0.5], [0.875]], classes=None, points=[[0.25]], obj=0)]),
+    # one dimension-wise object: two different trees with the same number of points and the same maximum level
+    dict(family='one-op-trees', steps=[
+        dict(kind='nonuniform', dim=1, stripes=[[0.0, 0.25, 0.5, 1.0]], levels=[[0, 2, 1, 0]], lam=0.125, ml=False, numeric=False,
+             data=[[0.25], [0.5], [0.875]], classes=None, points=[[0.3]], obj=0),
+        dict(kind='nonuniform', dim=1, stripes=[[0.0, 0.5, 0.75, 1.0]], levels=[[0, 1, 2, 0]], lam=0.125, ml=False, numeric=False,
+             data=[[0.25], [0.5], [0.875]], classes=None, points=[[0.3]], obj=0)]),
+]
+
 
 # ----------------------------------------------------------------------------------------------- implementation
 def _stripes_of(case):
@@ -139,42 +434,94 @@ def _surpluses(case, N):
     return [r.randrange(-16, 17) / 8 for _ in range(N)]
 
 
-def impl_case(case):
+def _exc_tuple(e):
+    tb = traceback.extract_tb(e.__traceback__)
+    where = ''
+    for f in reversed(tb):
+        if REPO in f.filename:
+            where = '%s:%d' % (os.path.relpath(f.filename, REPO), f.lineno)
+            break
+    return (type(e).__name__, where, str(e)[:300])
+
+
+def _state_entry(state, case):
+    """operation object of a step: a fresh one, or the living object `obj` of the history with its options re-assigned"""
+    import numpy as np
+    dw = case['kind'].startswith('nonuniform')
+    if state is None or case.get('obj') is None:
+        return {'op': _de.make_op(case, dw), 'combi': None}
+    key = (case['obj'], dw)
+    ent = state.get(key)
+    if ent is None:
+        ent = state[key] = {'op': _de.make_op(case, dw), 'combi': None}
+    else:
+        op = ent['op']
+        op.lambd = case.get('lam', 0.0)
+        op.masslumping = bool(case.get('ml'))
+        op.classes = np.array(case['classes']) if case.get('classes') is not None else None
+    return ent
+
+
+def _run_step(state, case):
     import numpy as np
     from sparseSpACE.ComponentGridInfo import ComponentGridInfo
     from sparseSpACE.Utils import get_cross_product_range_list
     kind = case['kind']
     dim = case['dim']
-    P = np.array(case['points'], dtype=float)
+    P = np.array(case['points'], dtype=float).reshape(len(case['points']), dim)
+    ent = _state_entry(state, case)
+    op = ent['op']
     out = {}
     if kind == 'combi':
         from sparseSpACE.StandardCombi import StandardCombi
         from sparseSpACE.Utils import print_levels, log_levels
-        op = _de.make_op(case, False)
-        combi = StandardCombi(np.zeros(dim), np.ones(dim), operation=op, print_level=print_levels.ERROR,
-                              log_level=log_levels.ERROR)
+        if ent['combi'] is None:
+            ent['combi'] = StandardCombi(np.zeros(dim), np.ones(dim), operation=op, print_level=print_levels.ERROR,
+                                         log_level=log_levels.ERROR)
+        combi = ent['combi']
         combi.perform_operation(case['lmin'], case['lmax'])
         out['scheme'] = [([int(x) for x in g.levelvector], float(g.coefficient)) for g in combi.scheme]
-        out['surpluses'] = {','.join(str(int(x)) for x in k): _de.tolist(v) for k, v in op.surpluses.items()}
+        out['surpluses'] = {','.join(str(int(x)) for x in g.levelvector): _de.tolist(op.surpluses[tuple(g.levelvector)])
+                            for g in combi.scheme}
         out['combi'] = _de.tolist(np.asarray(combi([tuple(p) for p in P])).reshape(-1))
         out['data'] = _de.tolist(op.data)
         return out
     uniform = kind.startswith('uniform')
     large = kind.endswith('large')
-    op = _de.make_op(case, not uniform)
     out['data'] = _de.tolist(op.data)
-    if uniform:
-        lv = tuple(int(l) for l in case['lv'])
-        op.grid.setCurrentArea(np.zeros(dim), np.ones(dim), lv)
-        N = int(op.grid.get_num_points())
-        out['b'] = _de.tolist(op.calculate_B(op.data, lv))
-        if not large:
-            R = op.build_R_matrix(lv)
-            out['R'] = _de.tolist(R) if not case.get('ml') else [[float(R)]]
-            alphas = op.solve_density_estimation(lv)
-            out['alphas'] = _de.tolist(alphas)
+    for rep in range(2 if case.get('repeat') else 1):
+        if uniform:
+            lv = tuple(int(l) for l in case['lv'])
+            op.grid.setCurrentArea(np.zeros(dim), np.ones(dim), lv)
+            N = int(op.grid.get_num_points())
+            out['b'] = _de.tolist(op.calculate_B(op.data, lv))
+            if not large:
+                R = op.build_R_matrix(lv)
+                out['R'] = _de.tolist(R) if not case.get('ml') else [[float(R)]]
+                alphas = op.solve_density_estimation(lv)
+                out['alphas'] = _de.tolist(alphas)
+            else:
+                alphas = np.array(_surpluses(case, N))
         else:
-            alphas = np.array(_surpluses(case, N))
+            stripes = [list(s) for s in case['stripes']]
+            levels = [list(l) for l in case['levels']]
+            grid = op.grid
+            grid.set_grid(stripes, levels)
+            N = int(np.prod([len(s) - 2 for s in stripes]))
+            key = tuple(max(l) for l in levels)
+            out['b'] = _de.tolist(op.calculate_B_dimension_wise(op.data, stripes, levels))
+            _, w = grid.get_points_and_weights()
+            out['weights'] = _de.tolist(w)
+            if not large:
+                R = op.build_R_matrix_dimension_wise(stripes, levels)
+                out['R'] = _de.tolist(R) if not case.get('ml') else [_de.tolist(R)]
+                alphas = op.solve_density_estimation_dimension_wise(stripes, levels, ComponentGridInfo(key, 1))
+                out['alphas'] = _de.tolist(alphas)
+            else:
+                alphas = np.array(_surpluses(case, N))
+    if len(P) == 0:
+        return out
+    if uniform:
         hats = np.array(get_cross_product_range_list(op.grid.numPoints), dtype=int) + 1
         lva = np.array(lv, dtype=int)
         out['hat_cv'] = _de.tolist(op.hat_function_in_support_completely_vectorized(hats, lva, P))
@@ -194,22 +541,6 @@ def impl_case(case):
         out['interp'] = _de.tolist(np.asarray(op.interpolate_points_component_grid(
             ComponentGridInfo(lv, 1), None, [tuple(p) for p in P])).reshape(-1))
     else:
-        stripes = [list(s) for s in case['stripes']]
-        levels = [list(l) for l in case['levels']]
-        grid = op.grid
-        grid.set_grid(stripes, levels)
-        N = int(np.prod([len(s) - 2 for s in stripes]))
-        key = tuple(max(l) for l in levels)
-        out['b'] = _de.tolist(op.calculate_B_dimension_wise(op.data, stripes, levels))
-        _, w = grid.get_points_and_weights()
-        out['weights'] = _de.tolist(w)
-        if not large:
-            R = op.build_R_matrix_dimension_wise(stripes, levels)
-            out['R'] = _de.tolist(R) if not case.get('ml') else [_de.tolist(R)]
-            alphas = op.solve_density_estimation_dimension_wise(stripes, levels, ComponentGridInfo(key, 1))
-            out['alphas'] = _de.tolist(alphas)
-        else:
-            alphas = np.array(_surpluses(case, N))
         points, lower, upper = op.get_hat_domain_for_every_grid_point_vectorized(stripes)
         out['hat_cv'] = _de.tolist(op.hat_function_non_symmetric_completely_vectorized(points, lower, upper, P))
         if not large:
@@ -231,11 +562,165 @@ def impl_case(case):
     return out
 
 
+def _scripted(seed):
+    import random as _random
+    from sparseSpACE.ErrorCalculator import ErrorCalculator
+
+    class Scripted(ErrorCalculator):
+        """deterministic errors that depend only on the geometry of the refinement object"""
+        def calc_error(self, ro, norm, volume_weights=None):
+            key = (float(ro.start), float(ro.end), int(getattr(ro, 'this_dim', -1)))
+            r = _random.Random('%s/%r' % (seed, key))
+            return r.choice([0.0, 0.125, 0.25, 0.5, 0.5, 1.0, 1.0, 2.0, 4.0])
+    return Scripted()
+
+
+def _run_adaptive(case):
+    """dimension-wise spatially adaptive run on ONE operation object; logs every component-grid solve"""
+    import numpy as np
+    from sparseSpACE.GridOperation import DensityEstimation
+    from sparseSpACE.Utils import print_levels, log_levels
+    from sparseSpACE.spatiallyAdaptiveSingleDimension2 import SpatiallyAdaptiveSingleDimensions2
+    log = []
+
+    class LoggingDE(DensityEstimation):
+        def build_R_matrix_dimension_wise(self, stripes, levels):
+            R = super().build_R_matrix_dimension_wise(stripes, levels)
+            self._cur = dict(R=_de.tolist(R) if not self.masslumping else [_de.tolist(R)])
+            return R
+
+        def calculate_B_dimension_wise(self, data, stripes, levels):
+            b = super().calculate_B_dimension_wise(data, stripes, levels)
+            self._cur['b'] = _de.tolist(b)
+            return b
+
+        def solve_density_estimation_dimension_wise(self, stripes, levels, cg):
+            a = super().solve_density_estimation_dimension_wise(stripes, levels, cg)
+            out = dict(self._cur, alphas=_de.tolist(a), weights=_de.tolist(self.grid.get_points_and_weights()[1]),
+                       data=_de.tolist(self.data))
+            log.append(dict(lv=[int(x) for x in cg.levelvector], stripes=[[float(v) for v in s] for s in stripes],
+                            levels=[[int(v) for v in l] for l in levels], out=out))
+            return a
+
+    dim = case['dim']
+    op = _de.make_op(dict(case, kind='nonuniform'), True, cls=LoggingDE)
+    a = np.zeros(dim); b = np.ones(dim)
+    S = SpatiallyAdaptiveSingleDimensions2(a, b, operation=op, margin=case['margin'], rebalancing=case['rebalancing'],
+                                           rebalancing_safety_factor=0.2, log_level=log_levels.ERROR, print_level=print_levels.ERROR)
+    ec = _scripted(case['est_seed'])
+    P = [tuple(p) for p in case['points']]
+    stops = []
+    for k in range(case['nsteps'] + 1):
+        if k == 0:
+            S.performSpatiallyAdaptiv(case['lmin'], case['lmax'], ec, -1, max_evaluations=1, print_output=False)
+        else:
+            S.refine()
+            S.continue_adaptive_refinement(tol=-1, max_evaluations=1)
+        st = dict(nlog=len(log), scheme=[([int(x) for x in g.levelvector], float(g.coefficient)) for g in S.scheme], grids=[])
+        for g in S.scheme:
+            sp = S.get_point_coord_for_each_dim(g.levelvector)[0]
+            st['grids'].append(dict(stripes=[[float(v) for v in s] for s in sp], surpluses=_de.tolist(op.surpluses[tuple(g.levelvector)])))
+        st['density'] = _de.tolist(np.asarray(S(P)).reshape(-1))
+        stops.append(st)
+    return dict(log=log, stops=stops)
+
+
+def impl_history(hist):
+    """all steps of a history in ONE process; per step (status, value) like run_impl"""
+    state = {}
+    res = []
+    for step in hist['steps'] if isinstance(hist, dict) else hist:
+        try:
+            res.append(('ok', _run_step(state, step)))
+        except BaseException as e:           # exceptions are first-class observables, the history goes on
+            res.append(('exc', _exc_tuple(e)))
+    return res
+
+
+def impl_case(case):
+    if case.get('history'):                      # pseudo-case of a history step: replays the whole history up to this step
+        state = {}
+        steps = case['history']
+        for step in steps[:-1]:
+            try:
+                _run_step(state, step)
+            except BaseException:
+                pass
+        return _run_step(state, steps[-1])
+    if case['kind'] == 'adaptive':
+        return _run_adaptive(case)
+    if 'adaptive' in case:                       # pseudo-case of one logged solve of an adaptive run
+        return _run_adaptive(case['adaptive'])['log'][case['log_index']]['out']
+    return _run_step(None, case)
+
+
+def _preimport():
+    """import (only) the implementation in the pool worker, so that the forked children need not"""
+    import numpy, scipy.integrate, sklearn.preprocessing                         # noqa: F401
+    import sparseSpACE.GridOperation, sparseSpACE.StandardCombi, sparseSpACE.Grid   # noqa: F401
+    import sparseSpACE.spatiallyAdaptiveSingleDimension2, sparseSpACE.ErrorCalculator  # noqa: F401
+
+
+def _isolated(fn, arg):
+    """fn(arg) in a forked child of the pool worker: EVERY case / history starts from the pristine import state of the
+    implementation (class attributes, module globals), whatever ran before in this worker - so a violation replays from
+    its own case alone.  The worker itself never executes implementation code.  Returns (status, value)."""
+    import pickle
+    import signal
+    _preimport()
+    r, w = os.pipe()
+    pid = os.fork()
+    if pid == 0:
+        code = 0
+        try:
+            os.close(r)
+            signal.alarm(0)
+            try:
+                res = ('ok', fn(arg))
+            except BaseException as e:
+                res = ('exc', _exc_tuple(e))
+            with os.fdopen(w, 'wb') as f:
+                pickle.dump(res, f)
+        except BaseException:
+            code = 1
+        finally:
+            os._exit(code)
+    os.close(w)
+    try:
+        with os.fdopen(r, 'rb') as f:
+            data = f.read()
+        os.waitpid(pid, 0)
+        pid = None
+    finally:
+        if pid is not None:             # time limit of run_impl hit while waiting
+            try:
+                os.kill(pid, signal.SIGKILL)
+                os.waitpid(pid, 0)
+            except OSError:
+                pass
+    if not data:
+        return ('exc', ('WorkerDied', '', 'the forked implementation process ended without a result'))
+    return pickle.loads(data)
+
+
+def iso_case(case):
+    return _isolated(impl_case, case)
+
+
+def iso_history(hist):
+    return _isolated(impl_history, hist)
+
+
+def _unwrap(results):
+    """run_impl wraps once more: ('ok', (status, value)) | ('timeout', None) | ('exc', ...) of the harness itself"""
+    return [v if st == 'ok' else (st, v) for st, v in results]
+
+
 # ----------------------------------------------------------------------------------------------- specification worker
 def spec_case(case):
     """exact-rational reference (runs in a worker only for speed; does not touch the implementation)"""
     kind = case['kind']
-    if kind == 'combi':
+    if kind in ('combi', 'adaptive'):
         return None
     stripes = fr(_stripes_of(case))
     data = fr(case['data'])
@@ -246,17 +731,19 @@ def spec_case(case):
     out['weights'] = _de.trap_weights(stripes)
     if kind.endswith('large'):
         return out
-    G0 = _de.spec_gram(stripes, F(0))
-    n = len(G0)
     if case.get('ml'):
+        dg = _de.spec_gram_diag(stripes)
+        n = len(dg)
         if uniform:
-            out['R'] = [[G0[0][0]]]
-            raw = [bi / G0[0][0] for bi in out['b']]
+            out['R'] = [[dg[0]]]
+            raw = [bi / dg[0] for bi in out['b']]
         else:
-            out['R'] = [[G0[i][i] + lam for i in range(n)]]
-            raw = [bi / (G0[i][i] + lam) for i, bi in enumerate(out['b'])]
+            out['R'] = [[dg[i] + lam for i in range(n)]]
+            raw = [bi / (dg[i] + lam) for i, bi in enumerate(out['b'])]
         out['pivots_ok'] = True
     else:
+        G0 = _de.spec_gram(stripes, F(0))
+        n = len(G0)
         G = [[G0[i][j] + (lam if i == j else 0) for j in range(n)] for i in range(n)]
         out['R'] = G
         raw, piv = _de.solve_exact(G, out['b'])
@@ -273,31 +760,91 @@ def spec_case(case):
 def _sig(case, obs, **kw):
     s = dict(path=case['kind'], obs=obs, ml=bool(case.get('ml')), entries='numeric' if case.get('numeric') else 'analytic',
              labelled=case.get('classes') is not None)
+    if case.get('history'):
+        s['history'] = True
+        s['step'] = len(case['history']) - 1
+    if 'adaptive' in case:
+        s['adaptive'] = True
     s.update(kw)
     return s
 
 
 def _key(case):
     return (case['kind'], str(case.get('lv') or case.get('stripes') or (case.get('lmin'), case.get('lmax'))),
-            case.get('lam'), bool(case.get('ml')), bool(case.get('numeric')), str(case['data']), str(case.get('classes')))
+            case.get('lam'), bool(case.get('ml')), bool(case.get('numeric')), str(case['data']), str(case.get('classes')),
+            str([(s.get('obj'), s.get('lam'), s.get('lv') or s.get('stripes') or s.get('lmax')) for s in case['history']])
+            if case.get('history') else '', case.get('log_index', -1), bool(case.get('debug')), bool(case.get('repeat')))
 
 
 def _nontrivial(case):
-    if case['kind'] == 'combi':
+    if case['kind'] in ('combi', 'adaptive'):
         return case['dim'] >= 2
-    st = _stripes_of(case)
-    N = 1
-    for s in st:
-        N *= len(s) - 2
-    return N >= 3 and len(case['data']) >= 2
+    return _N(_stripes_of(case)) >= 3 and len(case['data']) >= 2
 
 
-def process(chk, cases, verbose=False):
-    """runs implementation, specification and model on the cases and reports; returns number of reported violations"""
+def _bucket(n, edges):
+    for e in edges:
+        if n <= e:
+            return '<=%d' % e
+    return '>%d' % edges[-1]
+
+
+def _count_axes(chk, c):
+    k = c['kind']
+    chk.count('kind=' + k)
+    chk.count('dim=%d' % c['dim'])
+    chk.count('lambda=%g' % c.get('lam', 0.0))
+    chk.count('samples ' + _bucket(len(c['data']), [1, 8, 30, 128, 1024, 4096]))
+    if k not in ('combi', 'adaptive'):
+        chk.count('grid points ' + _bucket(_N(_stripes_of(c)), [1, 8, 49, 199, 260, 1023, 2047]))
+    if c.get('ml'): chk.count('masslumping')
+    cl = c.get('classes')
+    chk.count('labels=' + ('none' if cl is None else ('one-class' if len(set(cl)) == 1 else 'two-classes')))
+    for flag in ('numeric', 'debug', 'pre_scaled', 'explicit_grid', 'repeat', 'xl'):
+        if c.get(flag): chk.count('option:' + flag)
+    if c.get('data_form'): chk.count('option:data_form=' + c['data_form'])
+    if c.get('history'):
+        chk.count('history-step=%d' % (len(c['history']) - 1))
+        prev = c['history'][:-1]
+        dw = lambda kk: kk.startswith('nonuniform')
+        if any(s.get('obj') == c.get('obj') and dw(s['kind']) == dw(c['kind']) for s in prev):
+            chk.count('history:object-reused')
+            last = [s for s in prev if s.get('obj') == c.get('obj') and dw(s['kind']) == dw(c['kind'])][-1]
+            if last.get('lam') != c.get('lam'): chk.count('history:lambda-changed-on-object')
+            if bool(last.get('ml')) != bool(c.get('ml')): chk.count('history:lumping-changed-on-object')
+            if (last.get('lv') or last.get('stripes')) == (c.get('lv') or c.get('stripes')): chk.count('history:same-grid-again')
+            elif 'stripes' in c and 'stripes' in last and [len(s) for s in last['stripes']] == [len(s) for s in c['stripes']]:
+                chk.count('history:other-tree-same-size')
+        elif prev:
+            chk.count('history:fresh-object-after-others')
+            if any((s.get('lv') or s.get('stripes')) == (c.get('lv') or c.get('stripes')) and s.get('lam') != c.get('lam') for s in prev):
+                chk.count('history:same-grid-other-lambda-fresh-object')
+    if 'adaptive' in c: chk.count('adaptive:logged-solve')
+
+
+def process(chk, cases, verbose=False, impl=None):
+    """runs implementation (unless given), specification and model on the cases and reports; returns number of reported violations"""
     nv0 = len(chk.violations)
-    impl = run_impl(impl_case, cases, limit=300)
-    spec = run_impl(spec_case, cases, limit=600)
+    T = chk.extra.setdefault('timing_s', {})
+
+    def tick(name, t0):
+        T[name] = round(T.get(name, 0.0) + time.time() - t0, 1)
+    cases = list(cases)
+    t0 = time.time()
+    impl = list(impl) if impl is not None else _unwrap(run_impl(iso_case, cases, limit=400))
+    tick('implementation', t0)
+    # adaptive runs: one pseudo-case per logged component-grid solve
+    for c, (st, r) in list(zip(cases, impl)):
+        if c['kind'] == 'adaptive' and st == 'ok':
+            for i, rec in enumerate(r['log']):
+                cases.append(dict(kind='nonuniform', dim=c['dim'], stripes=rec['stripes'], levels=rec['levels'], lam=c['lam'],
+                                  ml=c['ml'], numeric=False, data=c['data'], classes=c['classes'], points=[], adaptive=c, log_index=i))
+                impl.append(('ok', rec['out']))
+    t0 = time.time()
+    spec = run_impl(spec_case, cases, limit=900)
+    tick('specification', t0)
     # ---- model round 1: system matrix, rhs, weights
+    t0 = time.time()
     m1 = []
     for c in cases:
         signs = c['classes'] if c.get('classes') is not None else []
@@ -314,7 +861,9 @@ def process(chk, cases, verbose=False):
         else:
             m1.append((99, []))
     r1 = run_model(16, m1)
-    # ---- model round 2: certificate check + normalisation ; hats ; large-path rhs ; interpolation (filled below)
+    tick('model-1 (matrix, rhs)', t0)
+    # ---- model round 2: certificate check + normalisation ; own solve ; hats ; large-path rhs
+    t0 = time.time()
     m2, m2i = [], []
 
     def add(i, tag, sub, val):
@@ -323,52 +872,67 @@ def process(chk, cases, verbose=False):
         k = c['kind']
         st_i, ri = impl[i]
         st_s, sp = spec[i]
-        if k == 'combi' or st_i != 'ok' or st_s != 'ok' or sx.is_err(r1[i]):
+        if k in ('combi', 'adaptive') or st_i != 'ok' or st_s != 'ok' or sx.is_err(r1[i]):
             continue
         uniform = k.startswith('uniform')
         P = fr(c['points'])
+        N = _N(_stripes_of(c))
+        signs = c['classes'] if c.get('classes') is not None else []
+        grid = c['lv'] if uniform else fr(c['stripes'])
         if not k.endswith('large'):
             G = qmat(r1[i][0]); b = qvec(r1[i][1])
             w = qvec(r1[i][2]) if not uniform else []
             cert = sp['raw'] if (not c.get('ml') and sp['raw'] is not None) else []
-            add(i, 'finish', 2, [uniform, bool(c.get('ml')), G, b, cert, c.get('classes') is not None, w])
-        else:
-            signs = c['classes'] if c.get('classes') is not None else []
-            add(i, 'rhs_large', 7 if uniform else 6, [c['lv'] if uniform else fr(c['stripes']), fr(c['data']), signs])
-        add(i, 'hats', 5 if uniform else 4, [c['lv'] if uniform else fr(c['stripes']), P])
+            cost = N * sum((x.numerator.bit_length() + x.denominator.bit_length()) ** 2 for x in cert)     # ~1e8 per second
+            if (N <= CERT_MAX and cost <= CERT_COST) or c.get('ml'):
+                add(i, 'finish', 2, [uniform, bool(c.get('ml')), G, b, cert, c.get('classes') is not None, w])
+            if N <= PIPE_MAX and cost * N <= 2 * CERT_COST:
+                add(i, 'pipeline', 13 if uniform else 12, [grid, sx.rat(c['lam']), bool(c.get('ml')), fr(c['data']), signs,
+                                                            c.get('classes') is not None])
+        if k.endswith('large') or N >= _de.THRESHOLD:
+            add(i, 'rhs_large', 7 if uniform else 6, [grid, fr(c['data']), signs])
+        if P:
+            add(i, 'hats', 5 if uniform else 4, [grid, P])
     r2 = run_model(16, m2)
     res2 = {}
     for (i, tag), r in zip(m2i, r2):
         res2[(i, tag)] = r
+    tick('model-2 (solve, hats)', t0)
     # ---- model round 3: interpolation with the model's final surpluses
+    t0 = time.time()
     m3, m3i = [], []
     for i, c in enumerate(cases):
         k = c['kind']
-        if k == 'combi' or impl[i][0] != 'ok':
+        if k in ('combi', 'adaptive') or impl[i][0] != 'ok' or not c['points']:
             continue
         uniform = k.startswith('uniform')
         if k.endswith('large'):
-            N = 1
-            for s in _stripes_of(c):
-                N *= len(s) - 2
-            al = fr(_surpluses(c, N))
-        else:
+            al = fr(_surpluses(c, _N(_stripes_of(c))))
+        elif (i, 'finish') in res2:
             f = res2.get((i, 'finish'))
             if f is None or sx.is_err(f) or not f[0]:
                 continue
             al = qvec(f[2])
+        else:
+            if 'alphas' not in impl[i][1]:
+                continue
+            al = fr(impl[i][1]['alphas'])       # beyond CERT_MAX: interpolant of the (exact image of the) implementation's surpluses
         m3.append((9 if uniform else 8, [c['lv'] if uniform else fr(c['stripes']), al, fr(c['points'])])); m3i.append(i)
     r3 = dict(zip(m3i, run_model(16, m3)))
+    tick('model-3 (interpolation)', t0)
 
+    t0 = time.time()
     keys, samples = [], []
     for i, c in enumerate(cases):
         k = c['kind']
-        chk.count('kind=' + k); chk.count('dim=%d' % c['dim'])
-        if c.get('ml'): chk.count('masslumping')
-        if c.get('classes') is not None: chk.count('labelled')
-        if c.get('numeric'): chk.count('numeric-entries')
+        _count_axes(chk, c)
         if k == 'combi':
             _check_combi(chk, c, impl[i], verbose)
+            if impl[i][0] == 'ok' and _nontrivial(c):
+                keys.append(_key(c))
+            continue
+        if k == 'adaptive':
+            _check_adaptive(chk, c, impl[i], verbose)
             if impl[i][0] == 'ok' and _nontrivial(c):
                 keys.append(_key(c))
             continue
@@ -389,9 +953,10 @@ def process(chk, cases, verbose=False):
             continue
         uniform = k.startswith('uniform')
         large = k.endswith('large')
+        N = _N(_stripes_of(c))
         bad = False
         # ---------------- matrix
-        if not large:
+        if not large and 'R' in ri:
             Rm = qmat(r1[i][0]); Ri = fr(ri['R']); Rs = sp['R']
             relR = REL_M + (64 * _de.EPS * _de.cancellation_amp(_stripes_of(c)) if not uniform else 0)
             ok_m = mat_close(Ri, Rm, relR); ok_s = mat_close(Ri, Rs, relR)
@@ -404,51 +969,75 @@ def process(chk, cases, verbose=False):
                               failing_input=not ok_s)
                 bad = True
             elif not c.get('ml'):
-                spd, why = _de.is_spd(Ri)
+                if N <= CERT_MAX:
+                    spd, why = _de.is_spd(Ri)
+                else:
+                    spd, why = _float_spd(ri['R'])
                 chk.count('spd-checks')
                 if not spd or not sp['pivots_ok']:
                     chk.violation('oracle:spd', 'not-spd', _sig(c, 'R'), c, dict(why=why))
                     bad = True
         # ---------------- right-hand side
-        bi = fr(ri['b'])
-        bm = qvec(r1[i][1]) if not large else qvec(r1[i])
-        ok_m = vec_close(bi, bm, REL_M); ok_s = vec_close(bi, sp['b'], REL_M)
-        if large:
-            bl = res2.get((i, 'rhs_large'))
-            ok_m = ok_m and not sx.is_err(bl) and vec_close(bi, qvec(bl), REL_M)
-        if not (ok_m and ok_s):
-            chk.violation('corr:C16/b' if not ok_m else 'oracle:rhs_sample_mean', 'rhs-differs', _sig(c, 'b'), c,
-                          dict(impl=str(ri['b'])[:400], exact=str([float(x) for x in sp['b']])[:400], impl_vs_model=ok_m,
-                               impl_vs_spec=ok_s), failing_input=not ok_s)
-            bad = True
+        if 'b' in ri:
+            bi = fr(ri['b'])
+            bm = qvec(r1[i][1]) if not large else qvec(r1[i])
+            ok_m = vec_close(bi, bm, REL_M); ok_s = vec_close(bi, sp['b'], REL_M)
+            if (i, 'rhs_large') in res2:
+                bl = res2.get((i, 'rhs_large'))
+                chk.count('rhs large-grid path (N>=200) vs rhs_large')
+                ok_m = ok_m and not sx.is_err(bl) and vec_close(bi, qvec(bl), REL_M)
+            if not (ok_m and ok_s):
+                chk.violation('corr:C16/b' if not ok_m else 'oracle:rhs_sample_mean', 'rhs-differs', _sig(c, 'b'), c,
+                              dict(impl=str(ri['b'])[:400], exact=str([float(x) for x in sp['b']])[:400], impl_vs_model=ok_m,
+                                   impl_vs_spec=ok_s), failing_input=not ok_s)
+                bad = True
         # ---------------- weights (non-uniform)
-        if not uniform:
+        if not uniform and 'weights' in ri:
             wm = qvec(r1[i][2]) if not large else sp['weights']
             if not (vec_close(fr(ri['weights']), wm, REL_M) and vec_close(fr(ri['weights']), sp['weights'], REL_M)):
                 chk.violation('corr:C16/weights', 'weights-differ', _sig(c, 'weights'), c,
                               dict(impl=str(ri['weights'])[:300], model=str([float(x) for x in wm])[:300]), failing_input=False)
                 bad = True
         # ---------------- hat variants
-        hm = res2.get((i, 'hats'))
-        why = _check_hats(c, ri, hm, uniform, large)
-        if why:
-            pt = why[1].get('point') if isinstance(why[1], dict) else None
-            nn = bool(pt) and _de.near_node(fr(_stripes_of(c)), [fr(pt)])
-            sg = dict(path=k, variant=why[0], near_node=nn)
-            chk.violation('corr:C16/hats', 'hat-variants-differ', sg, c, why[1])
-            bad = True
+        if 'hat_cv' in ri:
+            hm = res2.get((i, 'hats'))
+            why = _check_hats(c, ri, hm, uniform, large)
+            if why:
+                pt = why[1].get('point') if isinstance(why[1], dict) else None
+                nn = bool(pt) and _de.near_node(fr(_stripes_of(c)), [fr(pt)])
+                sg = dict(path=k, variant=why[0], near_node=nn)
+                chk.violation('corr:C16/hats', 'hat-variants-differ', sg, c, why[1])
+                bad = True
         # ---------------- solve + normalisation
-        if not large and not bad:
-            f = res2.get((i, 'finish'))
-            if f is None or sx.is_err(f):
-                chk.violation('corr:C16/solve', 'model-rejects', {'path': k}, c, str(f)[:300], failing_input=False)
-                continue
-            chk.count('certificates-checked')
-            if not f[0]:
-                chk.violation('checker:check_solution', 'certificate-rejected', {'path': k}, c,
-                              'exact solution of the specification system does not solve the model system', failing_input=False)
-                continue
-            fin_m = qvec(f[2]); integ_m = sx.q(f[3])
+        if not large and not bad and 'alphas' in ri:
+            if (i, 'finish') in res2:
+                f = res2.get((i, 'finish'))
+                if f is None or sx.is_err(f):
+                    chk.violation('corr:C16/solve', 'model-rejects', {'path': k}, c, str(f)[:300], failing_input=False)
+                    continue
+                chk.count('certificates-checked')
+                if not f[0]:
+                    chk.violation('checker:check_solution', 'certificate-rejected', {'path': k}, c,
+                                  'exact solution of the specification system does not solve the model system', failing_input=False)
+                    continue
+                fin_m = qvec(f[2]); integ_m = sx.q(f[3])
+            else:
+                # beyond CERT_MAX: exact residual of the specification's solution in the MODEL system, computed here
+                chk.count('certificates-checked-in-python (N>%d or long rationals)' % CERT_MAX)
+                Gm = qmat(r1[i][0]); bm_ = qvec(r1[i][1]); raw = sp['raw']
+                if raw is None or any(sum((g * x for g, x in zip(row, raw) if g != 0), F(0)) != bb for row, bb in zip(Gm, bm_)):
+                    chk.violation('checker:python-residual', 'certificate-rejected', {'path': k}, c,
+                                  'exact solution of the specification system does not solve the model system', failing_input=False)
+                    continue
+                fin_m = sp['alphas']; integ_m = sp['integral']
+            pm = res2.get((i, 'pipeline'))
+            if (i, 'pipeline') in res2:
+                chk.count('model-own-solve')
+                if sx.is_err(pm) or qvec(pm[0]) != qvec(f[1]) or qvec(pm[1]) != fin_m or sx.q(pm[2]) != integ_m:
+                    chk.violation('corr:C16/model-solve', 'model-solve-differs', {'path': k}, c,
+                                  dict(note='Model/GramSolve.v pipeline does not reproduce the certified exact solution', model=str(pm)[:300]),
+                                  failing_input=False)
+                    continue
             ai = fr(ri['alphas'])
             if integ_m == 0 and not vec_close(ai, fin_m, REL_S):
                 chk.count('ambiguous-zero-integral')        # float decision `integral == 0` on an exactly vanishing mean
@@ -467,7 +1056,7 @@ def process(chk, cases, verbose=False):
                     chk.violation('oracle:normalised', 'mean-pos-not-one', _sig(c, 'alphas'), c, dict(mean_pos=float(mp)))
                     bad = True
         # ---------------- interpolation of the component grid
-        if not bad and i in r3:
+        if not bad and i in r3 and 'interp' in ri:
             im = r3[i]
             if sx.is_err(im) or not vec_close(fr(ri['interp']), qvec(im), REL_S if not large else REL_M):
                 chk.violation('corr:C16/interp', 'interpolation-differs', _sig(c, 'interp'), c,
@@ -478,16 +1067,34 @@ def process(chk, cases, verbose=False):
             print('case', i, k, 'ok' if not bad else 'DIFFERS')
         if _nontrivial(c):
             keys.append(_key(c))
-        if len(samples) < 3 and not bad and not large and _nontrivial(c) and c['dim'] >= 2:
-            samples.append(dict(case={kk: c[kk] for kk in c if kk != 'points'}, impl_surpluses=ri['alphas'][:8],
-                                model_surpluses=[float(x) for x in qvec(res2[(i, 'finish')][2])][:8]))
+        if len(samples) < 3 and not bad and not large and _nontrivial(c) and c['dim'] >= 2 and 'adaptive' not in c and c['points'] and 'alphas' in ri:
+            samples.append(dict(case={kk: c[kk] for kk in c if kk not in ('points', 'history')},
+                                in_history=bool(c.get('history')), impl_surpluses=ri['alphas'][:8],
+                                model_surpluses=[float(x) for x in fin_m][:8]))
+    tick('comparison', t0)
     chk.record_cases(len(cases), keys,
-                     'DensityEstimation direct calls: uniform level vectors (d 1..3, N<=49), non-uniform stripes (dyadic subsets, '
-                     'd 1..3, N<=48), grids beyond the 200-point threshold (rhs/interpolation), StandardCombi runs (lmax<=3); '
-                     'data on dyadic lattices incl. grid lines and the boundary, lambda in {0,.01,.125,.25,.5,1}, mass lumping, '
-                     'labels, numeric entries; non-trivial = at least 3 grid points and 2 samples (combi: d>=2); distinct by full case',
+                     'DensityEstimation direct calls: uniform level vectors (d 1..5), non-uniform stripes (dyadic subsets, d 1..4), complete '
+                     'pipeline up to 260 grid points, right-hand side / interpolation up to 2047 points, up to 4100 samples; StandardCombi runs '
+                     '(component grids on both sides of the 200-point threshold); dimension-wise adaptive runs (every logged solve); histories on '
+                     'one object / in one process (regularisation sweeps, level vectors revisited, other tree of the same size, option changes, '
+                     'repeated calls, combi re-runs); data on dyadic lattices incl. grid lines and the boundary, lambda in '
+                     '{0, 2^-20, .01, .125, .25, .3, .3125, .5, 1, 4, 100}, mass lumping, labels (two classes / one class), numeric entries, debug, '
+                     'pre_scaled_data, tuple data, explicit grid; non-trivial = at least 3 grid points and 2 samples (combi, adaptive: d>=2); '
+                     'distinct by full case (history steps: by the history prefix)',
                      samples)
     return len(chk.violations) - nv0
+
+
+def _float_spd(R):
+    import numpy as np
+    A = np.array(R, dtype=float)
+    if not (A == A.T).all():
+        return False, 'not symmetric'
+    try:
+        np.linalg.cholesky(A)
+    except np.linalg.LinAlgError:
+        return False, 'floating Cholesky factorisation failed'
+    return True, ''
 
 
 def _check_hats(c, ri, hm, uniform, large):
@@ -556,13 +1163,15 @@ def _check_combi(chk, c, res, verbose):
     for lv, coeff in r['scheme']:
         cc = dict(c, kind='uniform', lv=lv)
         sub.append(cc)
+        N = _N(_stripes_of(cc))
+        chk.count('combi component grid ' + ('N>=200' if N >= _de.THRESHOLD else 'N<200'))
     specs = [spec_case(cc) for cc in sub]
-    m1 = run_model(16, [(0, [cc['lv'], sx.rat(cc['lam']), bool(cc['ml']), fr(cc['data']),
-                             cc['classes'] if cc.get('classes') is not None else []]) for cc in sub])
+    signs = c['classes'] if c.get('classes') is not None else []
+    m1 = run_model(16, [(0, [cc['lv'], sx.rat(cc['lam']), bool(cc['ml']), fr(cc['data']), signs]) for cc in sub])
     m2 = run_model(16, [(2, [True, bool(cc['ml']), qmat(a[0]), qvec(a[1]),
                              sp['raw'] if not cc.get('ml') else [], cc.get('classes') is not None, []])
                         for cc, a, sp in zip(sub, m1, specs)])
-    total = [F(0)] * len(c['points'])
+    grids = []
     for (lv, coeff), cc, sp, f in zip(r['scheme'], sub, specs, m2):
         ai = fr(r['surpluses'][','.join(map(str, lv))])
         if sx.is_err(f) or not f[0]:
@@ -575,31 +1184,74 @@ def _check_combi(chk, c, res, verbose):
         ok_m = vec_close(ai, fin, REL_S); ok_s = vec_close(ai, sp['alphas'], REL_S)
         if not (ok_m and ok_s):
             chk.violation('corr:C16/surpluses' if not ok_m else 'oracle:normal_equations', 'surpluses-differ',
-                          _sig(cc, 'alphas', via='combi'), cc, dict(impl=str(r['surpluses'])[:300], exact=str([float(x) for x in sp['alphas']])[:300]),
+                          _sig(cc, 'alphas', via='combi'), c, dict(component_grid=lv, impl=str(r['surpluses'])[:300],
+                                                                   exact=str([float(x) for x in sp['alphas']])[:300]),
                           failing_input=not ok_s)
             return
-        im = run_model(16, [(9, [lv, fin, fr(c['points'])])])[0]
-        for n, v in enumerate(qvec(im)):
-            total[n] += sx.rat(coeff) * v
-    if not vec_close(fr(r['combi']), total, REL_S):
+        grids.append([lv, sx.rat(coeff), fin])
+    total = run_model(16, [(14, [grids, fr(c['points'])])])[0]
+    if sx.is_err(total) or not vec_close(fr(r['combi']), qvec(total), REL_S):
         chk.violation('corr:C16/combi', 'combined-density-differs', _sig(c, 'combi'), c,
-                      dict(impl=r['combi'], model=[float(x) for x in total], points=c['points']))
+                      dict(impl=r['combi'], model=[float(x) for x in qvec(total)] if not sx.is_err(total) else str(total), points=c['points']))
     elif verbose:
-        print('combi ok', [float(x) for x in total][:4])
+        print('combi ok', [float(x) for x in qvec(total)][:4])
+
+
+def _check_adaptive(chk, c, res, verbose):
+    """the densities S(points) at every stop = combination of the model interpolants of the component grids (the logged solves
+    themselves are checked as pseudo-cases)"""
+    st, r = res
+    if st != 'ok':
+        chk.violation('corr:C16/adaptive', 'impl-exception', _sig(c, 'exception', exc=r[0] if r else st), c, dict(impl=str(r)))
+        return
+    chk.traces += 1
+    calls = []
+    for stp in r['stops']:
+        grids = [[fr(g['stripes']), sx.rat(coeff), fr(g['surpluses'])] for (lv, coeff), g in zip(stp['scheme'], stp['grids'])]
+        calls.append((15, [grids, fr(c['points'])]))
+    outs = run_model(16, calls)
+    for n, (stp, tot) in enumerate(zip(r['stops'], outs)):
+        chk.count('adaptive:stop')
+        if sx.is_err(tot) or not vec_close(fr(stp['density']), qvec(tot), REL_S):
+            chk.violation('corr:C16/adaptive', 'combined-density-differs', _sig(c, 'combi', stop=n), c,
+                          dict(stop=n, impl=stp['density'], model=[float(x) for x in qvec(tot)] if not sx.is_err(tot) else str(tot),
+                               points=c['points']))
+            return
+    if verbose:
+        print('adaptive ok', len(r['stops']), 'stops', len(r['log']), 'solves')
 
 
 def run(chk):
     chk.coq_obligations()
     rng = chk.rng
     q = chk.quick
-    cases = list(CORPUS)
-    cases += [gen_uniform(rng, q) for _ in range(chk.n(70, 400))]
-    cases += [gen_nonuniform(rng, q) for _ in range(chk.n(90, 500))]
+    chk.extra['excluded_axes'] = EXCLUDED
+    # the slow cases first (the pool works through the list in order)
+    cases = [gen_xl(rng, True) for _ in range(chk.n(1, 4))]
+    cases += [gen_xl(rng, False, dim=1 + k % 2) for k in range(chk.n(2, 6))]
+    cases += [gen_combi(rng, large=True) for _ in range(chk.n(1, 3))]
+    cases += list(CORPUS)
+    cases += [gen_uniform(rng, q) for _ in range(chk.n(65, 400))]
+    cases += [gen_nonuniform(rng, q) for _ in range(chk.n(75, 500))]
     cases += [gen_nonuniform(rng, q, numeric=True) for _ in range(chk.n(3, 12))]
-    cases += [gen_large(rng, True) for _ in range(chk.n(6, 20))]
-    cases += [gen_large(rng, False) for _ in range(chk.n(6, 20))]
-    cases += [gen_combi(rng) for _ in range(chk.n(10, 40))]
-    process(chk, cases)
+    cases += [gen_bigM(rng, k) for k in range(chk.n(16, 32))]
+    cases += [gen_large(rng, True, lab=k % 2 == 0) for k in range(chk.n(7, 20))]       # with and without labels in every run
+    cases += [gen_large(rng, False, lab=k % 2 == 1) for k in range(chk.n(7, 20))]
+    cases += [gen_combi(rng) for _ in range(chk.n(8, 40))]
+    cases += [gen_adaptive(rng) for _ in range(chk.n(8, 30))]
+    fams = ['lam-sweep', 'one-op-levels', 'one-op-trees', 'two-ops', 'combi-rerun', 'mixed-paths', 'threshold-crossing', 'lam-sweep',
+            'one-op-trees', 'one-op-levels']
+    hists = list(CORPUS_HISTORIES) + [gen_history(rng, fams[k % len(fams)]) for k in range(chk.n(40, 150))]
+    t0 = time.time()
+    impl = _unwrap(run_impl(iso_case, cases, limit=400))
+    hres = _unwrap(run_impl(iso_history, hists, limit=400))
+    chk.extra.setdefault('timing_s', {})['implementation'] = round(time.time() - t0, 1)
+    for h, (st, steps) in zip(hists, hres):
+        chk.count('history-family=' + h['family'])
+        for k, step in enumerate(h['steps']):
+            cases.append(dict(step, history=h['steps'][:k + 1]))
+            impl.append(steps[k] if st == 'ok' else (st, steps))
+    process(chk, cases, impl=impl)
 
 
 def replay(chk, rep):
